@@ -77,11 +77,13 @@ def component(rng, comp, uid, rich, day=None, summary=None, fold=True):
         elif style == "start":
             L += ["DTSTART:%sT080000Z" % d0, "DUE:%sT180000Z" % d0]
         L.append("STATUS:" + rng.choice(["NEEDS-ACTION", "COMPLETED", "IN-PROCESS"]))
+    elif comp == "VFREEBUSY":
+        L += ["DTSTART:%sT080000Z" % d0, "DTEND:%sT180000Z" % d0, "FREEBUSY;FBTYPE=BUSY:%sT100000Z/%sT110000Z" % (d0, d0)]
     else:
         L.append("DTSTART;VALUE=DATE:" + d0)
     if summary is None:
         summary = rng.choice(SUMMARIES)
-    L.append("SUMMARY:" + summary)
+    L.append(("COMMENT:" if comp == "VFREEBUSY" else "SUMMARY:") + summary)
     if rng.random() < 0.25:
         # present-but-falsy values
         L.append(rng.choice(["PRIORITY:0", "SEQUENCE:0", "PRIORITY:5", "SEQUENCE:2"] + (["PERCENT-COMPLETE:0", "PERCENT-COMPLETE:40"] if comp == "VTODO" else [])))
@@ -111,14 +113,23 @@ def component(rng, comp, uid, rich, day=None, summary=None, fold=True):
 
 
 def ics(rng, uid, comp=None, rich=None, ncomp=1, lineend="\r\n", summary=None, day=None):
+    free = comp is None
     if comp is None:
         comp = rng.choice(["VEVENT", "VEVENT", "VTODO", "VJOURNAL"])
     if rich is None:
         rich = rng.choice([0, 1, 2])
+    if free and rng.random() < 0.06:
+        # free-busy objects are calendar object resources too
+        comp = "VFREEBUSY"
     L = ["BEGIN:VCALENDAR", "VERSION:2.0", "PRODID:-//xsim//gen//EN"]
     body = []
     for i in range(ncomp):
         body += component(rng, comp, uid, rich, day=day, summary=summary)
+    if free and comp == "VEVENT" and ncomp == 1 and uid is not None and rng.random() < 0.08:
+        # an overridden instance of the same event (same UID, RECURRENCE-ID)
+        ov = component(rng, comp, uid, 0, day=day, summary="moved instance")
+        ov.insert(2, "RECURRENCE-ID:2020%02d%02dT100000Z" % (rng.randint(1, 6), rng.randint(1, 28)))
+        body += ov
     text = "\r\n".join(L) + "\r\n" + "\r\n".join(body) + "\r\n"
     if "TZID=Europe/Amsterdam" in text:
         text += TZ_AMS
